@@ -28,6 +28,7 @@ type Task struct {
 	callSteps  int64
 	budget     int64
 	nextHang   int64 // step count at which an over-budget call is unwound again
+	deadlocked bool  // (main only) woken because nothing else can run
 	exitable   bool  // the call runs on its own goroutine and may be ended with Goexit
 	hung       bool  // ... and has been
 	hangSteps  int64
@@ -35,6 +36,7 @@ type Task struct {
 
 	blockedOn unsafe.Pointer
 	panicked  any
+	child     bool // started by the library itself (a rewritten go statement)
 }
 
 // ID returns the task index (spawn order).
@@ -195,6 +197,12 @@ func (w *World) pick(exclude *Task) *Task {
 			n++
 		}
 	}
+	// the main goroutine takes part as a task only while it is parked for goroutines the
+	// library started (single-task engines); otherwise it is the coordinator of Run
+	if w.mainParked && w.main.state == taskRunnable && exclude != &w.main && n < len(cand) {
+		cand[n] = &w.main
+		n++
+	}
 	if n == 0 {
 		return nil
 	}
@@ -252,14 +260,128 @@ func (w *World) taskExit(t *Task) {
 			code = RunDeadlock
 		}
 	}
-	if code == RunDeadlock {
+	if code == RunDeadlock || (w.mainParked && w.main.state == taskBlocked) {
 		w.Stats.Deadlocks++
 		w.violate("deadlock", "all remaining tasks are blocked")
+	}
+	if !w.inRun {
+		// no coordinator: the main goroutine is parked as a task; let it see the deadlock
+		if w.mainParked {
+			w.main.state = taskRunnable
+			w.main.deadlocked = true
+			w.cur = &w.main
+			raceDisable()
+			w.main.wake <- struct{}{}
+			raceEnable()
+		}
+		return
 	}
 	raceDisable()
 	w.mainWake <- code
 	raceEnable()
 }
+
+// Go starts fn as a goroutine of the simulated world: the rewritten form of a go statement in
+// library code.  The child is a task like any caller task: it runs only when it holds the baton
+// (at the parent's blocking points, at pre-emption points of concurrent worlds, or when the
+// parent's call has returned).  The real go statement below is the one happens-before edge a
+// real go statement gives; joins go through the simulated WaitGroup/Mutex edges.
+func Go(fn func()) {
+	w := W
+	if w == nil {
+		go fn()
+		return
+	}
+	child := w.newChild()
+	go func() {
+		raceDisable()
+		<-child.wake
+		raceEnable()
+		defer w.childExit(child)
+		defer func() {
+			if r := recover(); r != nil {
+				child.setPanicked(r)
+				w.violate("task-panic", fmt.Sprintf("a goroutine started by the library panicked: %v", r))
+			}
+		}()
+		fn()
+	}()
+}
+
+//go:norace
+func (w *World) newChild() *Task {
+	p := w.cur
+	t := &Task{wake: make(chan struct{}, 1), done: make(chan struct{}), child: true}
+	t.id = len(w.tasks)
+	t.state = taskRunnable
+	t.src, t.inCall, t.callSerial, t.callKind = p.src, p.inCall, p.callSerial, p.callKind
+	t.budget = p.budget
+	t.exitable = true
+	t.prio = p.prio
+	w.tasks = append(w.tasks, t)
+	w.Stats.ChildTasks++
+	w.ev(EvUser, 0xfffd, uint32(t.id))
+	return t
+}
+
+func (w *World) childExit(t *Task) {
+	if t.wasHung() {
+		w.violate("hang", "a goroutine started by the library exceeded its step budget")
+	}
+	close(t.done)
+	w.taskExit(t)
+}
+
+//go:norace
+func (t *Task) wasHung() bool { return t.hung }
+
+// DrainChildren lets goroutines the library started run to completion once the call that started
+// them has returned (single-task engines; in concurrent worlds they are scheduled like any task).
+func (w *World) DrainChildren() {
+	for w.parkMainFor() {
+	}
+}
+
+//go:norace
+func (w *World) runnableChild() *Task {
+	if w.inRun || w.cur != &w.main {
+		return nil
+	}
+	for _, t := range w.tasks {
+		if t.child && t.state == taskRunnable {
+			return t
+		}
+	}
+	return nil
+}
+
+func (w *World) parkMainFor() bool {
+	next := w.runnableChild()
+	if next == nil {
+		return false
+	}
+	w.handToChild(next, false)
+	return true
+}
+
+//go:norace
+func (w *World) handToChild(next *Task, blocked bool) {
+	w.mainParked = true
+	if !blocked {
+		w.main.state = taskRunnable
+	}
+	w.ev(EvSwitch, uint32(next.id), 0)
+	w.cur = next
+	raceDisable()
+	next.wake <- struct{}{}
+	<-w.main.wake
+	raceEnable()
+	w.mainParked = false
+}
+
+// NumProcs replaces runtime.GOMAXPROCS(0) / runtime.NumCPU() in library code: a worker's real
+// value differs from process to process and must not decide what the library does.
+func NumProcs() int { return 4 }
 
 // Yield is a pre-emption candidate, inserted by simgen and called by the shims.
 //
@@ -376,11 +498,44 @@ func (w *World) switchTo(t, next *Task, site uint32) {
 //go:norace
 func (w *World) block(on unsafe.Pointer, what string) {
 	t := w.cur
-	if !w.inRun || t == &w.main {
-		// nothing else can ever run: unwind instead of hanging the process
+	if !w.inRun && t == &w.main {
+		// the main goroutine acts as the only caller task: it can wait for goroutines the library
+		// started, and for nothing else
+		if next := w.runnableChild(); next != nil {
+			t.state = taskBlocked
+			t.blockedOn = on
+			w.ev(EvBlock, uint32(0xff), 0)
+			w.handToChild(next, true)
+			if !t.deadlocked {
+				return
+			}
+			t.deadlocked = false
+		}
 		w.Stats.Deadlocks++
 		w.violate("deadlock", what+" would block forever (single caller)")
+		t.state = taskRunnable
 		panic(DeadlockSentinel{what})
+	}
+	if !w.inRun {
+		// a child task of a single-caller world blocks: run another child or give the baton back to main
+		t.state = taskBlocked
+		t.blockedOn = on
+		w.ev(EvBlock, uint32(t.id), 0)
+		next := w.pick(t)
+		if next == nil {
+			w.Stats.Deadlocks++
+			w.violate("deadlock", what+": no runnable task")
+			raceDisable()
+			<-t.wake // parked for good
+			raceEnable()
+			return
+		}
+		w.cur = next
+		raceDisable()
+		next.wake <- struct{}{}
+		<-t.wake
+		raceEnable()
+		return
 	}
 	t.state = taskBlocked
 	t.blockedOn = on
@@ -412,5 +567,10 @@ func (w *World) unblock(on unsafe.Pointer) {
 			o.blockedOn = nil
 			w.ev(EvUnblock, uint32(o.id), 0)
 		}
+	}
+	if w.main.state == taskBlocked && w.main.blockedOn == on {
+		w.main.state = taskRunnable
+		w.main.blockedOn = nil
+		w.ev(EvUnblock, 0xff, 0)
 	}
 }
